@@ -9,6 +9,7 @@ import Driver.Exclude
 import Driver.Qualify
 import Driver.Tx
 import Driver.Dev
+import Driver.Lint
 open Lean
 
 def dispatch (j : Json) : Json :=
@@ -27,6 +28,7 @@ def dispatch (j : Json) : Json :=
   | "tx.plan" => Driver.handleTxPlan j
   | "tx.schema" => Driver.handleTxSchema j
   | "dev.run" => Driver.handleDevRun j
+  | "lint.analyze" => Driver.handleLintAnalyze j
   | "h1" => Json.mkObj [("h", Atlas.Base.h1 (Driver.unhex (Driver.str j "hex")))]
   | op => Json.mkObj [("err", s!"unknown-op:{op}")]
 
